@@ -272,7 +272,8 @@ pub fn me_tc31(version: u32) -> u64 {
 
 /// TC 28 aircraft status (emergency) - an ME type the decoder ignores
 pub fn me_tc28() -> u64 {
-    Me::new().set(1, 5, 28).set(6, 3, 1).0
+    // subtype 1: emergency state (3 bits) = 1 (general emergency), Mode A code (13 bits) = 7700
+    Me::new().set(1, 5, 28).set(6, 3, 1).set(9, 3, 1).set(12, 13, id13_for_squawk(7700) as u64).0
 }
 
 // ---------------------------------------------------------------- MB registers (56 bits, bit 1 = first MB bit)
